@@ -45,6 +45,10 @@ function alphabet(name) {
       return [S0, R0, C0, L0, N, X, Y, sel([R(0), S(0)], 1)];
     case 'two-quick':
       return [S0, S1, R0, R1, C0, sel([R(0), R(1)]), sel([R(0), R(1)], 1), sel([S(0), S(1)]), sel([S(0), S(1)], 1), sel([R(0), S(1)]), sel([R(0), S(1)], 1)];
+    case 'wake-main':
+      return [Y, C0, R1];
+    case 'wake-g':
+      return [R0, sel([R(0)]), Q0, S0, sel([S(0)]), S1];
     case 'two-full':
       return [S0, S1, R0, Q1, C0, C1, sel([R(0), R(1)]), sel([R(0), R(1)], 1), sel([S(0), S(1)]), sel([S(0), S(1)], 1), sel([R(0), S(1)]), sel([R(0), S(1)], 1), sel([S(0), R(1)]), sel([R(0), S(0), R(1)]), sel([R(0), R(1), S(1)], 1), Y];
   }
@@ -60,6 +64,8 @@ function families(tier) {
     { name: 'F4', alpha: 'one-misc', lens: [2, 2], caps: [[-1], [0], [1]] },
     { name: 'F5', alpha: 'one-small', lens: [2, 2], caps: [[0], [1]], norecover: true },
     { name: 'F6', alpha: 'one-small', lens: [2, 2], caps: [[0]], expose: true },
+    // close/send with several waiters of different kinds parked on one channel, main waiting for the result
+    { name: 'F7', alphas: ['wake-main', 'wake-g', 'wake-g'], lens: [3, 1, 2], caps: [[0, 0]] },
   ];
   if (tier !== 'thorough') return q;
   return q.concat([
@@ -69,13 +75,13 @@ function families(tier) {
     { name: 'T4', alpha: 'one-small', lens: [2, 2, 1, 1], caps: [[0], [1]] },
     { name: 'T5', alpha: 'one-core', lens: [2, 3], caps: [[0], [1]] },
     { name: 'T6', alpha: 'two-quick', lens: [2, 2, 1], caps: [[0, 0], [0, 1]] },
+    { name: 'T7', alphas: ['wake-main', 'wake-g', 'wake-g'], lens: [3, 2, 2], caps: [[0, 0], [1, 0]] },
   ]);
 }
 
 // Enumerates the scenarios of a family: calls f(scenario, id)
 function* scenariosOf(fam) {
-  const alpha = alphabet(fam.alpha);
-  const per = fam.lens.map((L, g) => seqs(opsFor(alpha, g), L));
+  const per = fam.lens.map((L, g) => seqs(opsFor(alphabet(fam.alphas ? fam.alphas[g] : fam.alpha), g), L));
   for (const caps of fam.caps) {
     const idx = new Array(per.length).fill(0);
     while (true) {
